@@ -38,8 +38,8 @@ func runC02(c *an.Ctx) {
 	c02Siblings(c)
 	// O8: the caches' batched puts consume the whole batch (shared rule with C01 O11)
 	n := 0
-	for _, typ := range []string{"tqcache", "bloomcache"} {
-		for _, fn := range c.P.Methods("blockstore", typ) {
+	for _, typ := range []*types.Named{c01TTqcache(c.P), c01TBloomcache(c.P)} {
+		for _, fn := range c01MethodsOf(c.P, "blockstore", typ) {
 			n += c01BatchComplete(c, fn, "O8")
 		}
 	}
@@ -99,8 +99,13 @@ func c02Tq(c *an.Ctx) {
 	p := c.P
 	const pkg = "blockstore"
 	t := &c02tq{c: c, writers: map[*ssa.Function]string{}, pkgFns: p.PkgFuncs(pkg)}
-	t.fStore, t.fViewer, t.fCache = p.Field(pkg, "tqcache", "blockstore"), p.Field(pkg, "tqcache", "viewer"), p.Field(pkg, "tqcache", "cache")
-	meths := p.Methods(pkg, "tqcache")
+	tTq := c01TTqcache(p)
+	if !c.Need(tTq != nil, "the Blockstore implementation of package blockstore that holds a *lru.TwoQueueCache") {
+		return
+	}
+	t.fStore, t.fViewer = c01One(c01FieldBy(tTq, c01IsBlockstoreT)), c01One(c01FieldBy(tTq, c01IsViewerT))
+	t.fCache = c01One(c01FieldBy(tTq, func(x types.Type) bool { return an.TypeIs(x, "github.com/hashicorp/golang-lru/v2", "TwoQueueCache") }))
+	meths := c01MethodsOf(p, pkg, tTq)
 	if !c.Need(t.fStore != nil && t.fViewer != nil && t.fCache != nil && len(meths) > 0, "blockstore.tqcache fields blockstore, viewer, cache and methods") {
 		return
 	}
@@ -143,9 +148,9 @@ func c02Tq(c *an.Ctx) {
 				v := an.Args(call)[1]
 				if mi, ok := v.(*ssa.MakeInterface); ok {
 					switch {
-					case an.TypeIs(mi.X.Type(), pkg, "cacheHave"):
+					case c02IsBool(mi.X.Type()): // entry kind: named bool = "has / has not"
 						t.writers[fn] = "have"
-					case an.TypeIs(mi.X.Type(), pkg, "cacheSize"):
+					case types.Identical(mi.X.Type().Underlying(), types.Typ[types.Int]): // named int = "has, with size"
 						t.writers[fn] = "size"
 					}
 				}
@@ -178,6 +183,23 @@ func c02Tq(c *an.Ctx) {
 
 	t.helpers()
 
+	batchHelpers := map[*ssa.Function]bool{}
+	for _, fn := range meths {
+		if len(t.lockAllOps(fn)) > 0 {
+			if H, _, _, _ := t.batchStoreHelper(fn); H != nil {
+				// only when every caller of the helper is such a batch context
+				all := true
+				for _, cs := range an.CallSitesOf(t.pkgFns, H) {
+					if len(t.lockAllOps(cs.Caller)) == 0 {
+						all = false
+					}
+				}
+				if all {
+					batchHelpers[H] = true
+				}
+			}
+		}
+	}
 	nStore, nWrite, nEarly := 0, 0, 0
 	for _, fn := range meths {
 		if fn == t.lock || fn == t.unlock || fn == t.query || t.writers[fn] != "" {
@@ -188,6 +210,9 @@ func c02Tq(c *an.Ctx) {
 		}
 		if _, _, ok := t.allHelper(fn, t.unlock); ok {
 			continue
+		}
+		if batchHelpers[fn] {
+			continue // checked from its caller, which holds the locks of all its keys
 		}
 		a, b, e := t.method(fn)
 		nStore += a
@@ -254,13 +279,22 @@ func (t *c02tq) helpers() {
 		}
 		// reference count and table are touched under the table mutex only
 		lf := an.Locks(fn, an.SyncModel, nil, true)
+		// the table mutex: the plain sync.Mutex field of the receiver locked by the helper
+		tableMu := map[string]bool{}
+		for _, mc := range an.Calls(fn, an.M("sync", "Mutex", "Lock")) {
+			if r := an.Recv(mc); r != nil {
+				if _, base := an.FieldOf(r); base != nil && base == ssa.Value(fn.Params[0]) {
+					tableMu[an.PathOf(r)] = true
+				}
+			}
+		}
 		nG := 0
 		an.Instrs(fn, func(in ssa.Instruction) {
 			guarded := false
 			what := ""
 			switch x := in.(type) {
 			case *ssa.Store:
-				if f, _ := an.FieldOf(x.Addr); f != nil && f.Name() == "refcnt" {
+				if f, _ := an.FieldOf(x.Addr); c02IsHolderCount(f, x.Addr) {
 					guarded, what = true, "refcnt store"
 				}
 			case *ssa.MapUpdate:
@@ -280,7 +314,7 @@ func (t *c02tq) helpers() {
 			nG++
 			held := false
 			for pth, m := range lf.Before[in] {
-				if m == an.LWrite && strings.HasSuffix(pth, ".lklk") {
+				if m == an.LWrite && tableMu[pth] {
 					held = true
 				}
 			}
@@ -297,7 +331,7 @@ func (t *c02tq) helpers() {
 			return false
 		}
 		f, _ := an.FieldOf(u.X)
-		return f != nil && f.Name() == "refcnt"
+		return c02IsHolderCount(f, u.X)
 	}
 	isZero := func(v ssa.Value) bool { k, ok := an.ConstOf(v); return ok && k.String() == "0" }
 	zeroEdges := an.RelEdges(un, isCnt, isZero, an.RelEQ)
@@ -311,7 +345,7 @@ func (t *c02tq) helpers() {
 			continue
 		}
 		nDel++
-		c.Check(an.GuardedBy(un, nil, call, zeroEdges), "O1", "R-DOM", an.FuncName(un), "delete<=refcnt==0", call.Pos(),
+		c.Check(an.GuardedBy(un, nil, call, zeroEdges), "O1", "R-DOM", an.FuncName(un), "delete<=holders==0", call.Pos(),
 			"lock object dropped from the table only when no holder/waiter is left",
 			"the per-key lock object is removed from the table while it may still be held: a later locker of the same key gets a fresh mutex and runs concurrently with the holder")
 	}
@@ -327,7 +361,7 @@ func (t *c02tq) helpers() {
 			if !isSt {
 				return
 			}
-			if f, _ := an.FieldOf(st.Addr); f == nil || f.Name() != "refcnt" {
+			if f, _ := an.FieldOf(st.Addr); !c02IsHolderCount(f, st.Addr) {
 				return
 			}
 			if b, isB := st.Val.(*ssa.BinOp); isB && b.Op == h.op && isCnt(b.X) {
@@ -336,7 +370,7 @@ func (t *c02tq) helpers() {
 				}
 			}
 		})
-		c.Check(ok, "O1", "R-PAIR", an.FuncName(h.fn), "refcnt"+h.op.String()+"1", h.fn.Pos(), "reference count adjusted by one",
+		c.Check(ok, "O1", "R-PAIR", an.FuncName(h.fn), "holders"+h.op.String()+"1", h.fn.Pos(), "reference count adjusted by one",
 			"per-key lock helper does not adjust the reference count by one: the lock object is dropped too early or never")
 	}
 }
@@ -480,7 +514,7 @@ func (t *c02tq) method(fn *ssa.Function) (nStore, nWrite, nEarly int) {
 	}
 	locks := t.lockOps(fn, t.lock)
 	unlocks := t.lockOps(fn, t.unlock)
-	if len(stores) == 0 && len(writes) == 0 && len(locks) == 0 {
+	if len(stores) == 0 && len(writes) == 0 && len(locks) == 0 && len(t.lockAllOps(fn)) == 0 {
 		return
 	}
 	// multi-key idiom?
@@ -689,6 +723,14 @@ func (t *c02tq) evidence(fn *ssa.Function, store, w ssa.CallInstruction, kind st
 			}
 			c.Check(ok2, "O2", "R-DOM", name, construct, w.Pos(), "negative entry only on not-found / successful delete",
 				"a 'not present' cache entry is written without the store having answered not-found (or a delete having succeeded): a stored block is then reported missing")
+			// the error tested must be the store's own: when the store call is handed
+			// a callback, an error returned by user code must not come back through it
+			if src := c02CallbackErrorSource(fn, store); src != "" {
+				c.Bad("O2", "R-FLOW", name, "not-found-is-the-store's-own-error("+sci.Name+")", w.Pos(),
+					"the error whose not-found-ness makes the cache record 'absent' can originate from the caller's callback ("+src+"): a callback returning ipld.ErrNotFound for a block that IS stored makes the cache report the block missing")
+			} else if len(c02FuncArgs(store)) > 0 {
+				c.OK("O2", "R-FLOW", name, "not-found-is-the-store's-own-error("+sci.Name+")", w.Pos(), "the function handed to the store never returns the user callback's error")
+			}
 			return
 		}
 		// have := result of store.Has
@@ -712,7 +754,7 @@ func (t *c02tq) evidence(fn *ssa.Function, store, w ssa.CallInstruction, kind st
 	okE := an.GuardedBy(fn, store, w, ev)
 	// value
 	okV, why := true, ""
-	for _, r := range an.Roots(val, nil) {
+	for _, r := range c02RootsThroughLocalFields(fn, val) {
 		if e, ok := r.(*ssa.Extract); ok && sci.Name == "GetSize" && e.Tuple == ssa.Value(an.CallValue(store)) && e.Index == 0 {
 			continue
 		}
@@ -926,6 +968,39 @@ func (t *c02tq) lockAllOps(fn *ssa.Function) []c02allOp {
 	return out
 }
 
+// batchStoreHelper: fn hands its key/block table to an unexported helper that
+// performs the (single) batched store call on the table's block list.
+func (t *c02tq) batchStoreHelper(fn *ssa.Function) (*ssa.Function, ssa.CallInstruction, int, ssa.CallInstruction) {
+	for _, call := range an.AllCalls(fn) {
+		H := call.Common().StaticCallee()
+		if !an.IsLocalHelper(H) || H == fn {
+			continue
+		}
+		if _, isCall := call.(*ssa.Call); !isCall {
+			continue
+		}
+		var hs []ssa.CallInstruction
+		for _, hc := range an.AllCalls(H) {
+			if hc.Common().IsInvoke() && c02LoadOfField(hc.Common().Value, t.fStore, t.fViewer) != nil {
+				if _, _, sl := c02CidArgs(hc); sl != nil {
+					hs = append(hs, hc)
+				}
+			}
+		}
+		if len(hs) != 1 || len(t.lockAllOps(H)) != 0 {
+			continue
+		}
+		_, _, sl := c02CidArgs(hs[0])
+		_, base := an.FieldOf(c01LoadAddr(sl))
+		prm, isP := base.(*ssa.Parameter)
+		if !isP || prm.Parent() != H {
+			continue
+		}
+		return H, call, an.RawParamIndex(prm), hs[0]
+	}
+	return nil, nil, 0, nil
+}
+
 // c02KeyList identifies a key list: (field, owning table object).
 func c02KeyList(v ssa.Value) (*types.Var, string) {
 	f, g := an.FieldOf(c01LoadAddr(v))
@@ -940,11 +1015,27 @@ func (t *c02tq) batch(fn *ssa.Function, stores []ssa.CallInstruction, locks []c0
 	c := t.c
 	name := an.FuncName(fn)
 	bad := func(construct string, pos token.Pos, msg string) { c.Bad("O1", "R-GUARD", name, construct, pos, msg) }
-	if len(stores) != 1 || len(locks) != 1 {
+	// the store call may live in a helper that is handed the table
+	// (`return b.putManyLocked(ctx, good)`): the caller side (locking) is checked
+	// here at the helper call, the store side (cache updates) inside the helper
+	hfn, hgid := fn, ""
+	var hstore ssa.CallInstruction
+	var store ssa.Instruction
+	var tableArg ssa.Value
+	if len(stores) == 0 && len(locks) == 1 {
+		if H, call, idx, hs := t.batchStoreHelper(fn); H != nil {
+			hfn, hstore, store, tableArg = H, hs, call, call.Common().Args[idx]
+			hgid = c02ObjID(H.Params[idx])
+		}
+	}
+	if hstore == nil && len(stores) == 1 {
+		hstore, store = stores[0], stores[0]
+	}
+	if hstore == nil || len(locks) != 1 {
 		bad("batch-shape", fn.Pos(), fmt.Sprintf("batched method with %d store calls and %d lock-all sites: idiom not recognised", len(stores), len(locks)))
 		return
 	}
-	store, l := stores[0], locks[0]
+	l := locks[0]
 	nStore = 1
 	// G: the object whose .keys are locked
 	keysF, g := an.FieldOf(c01LoadAddr(l.keys))
@@ -953,10 +1044,17 @@ func (t *c02tq) batch(fn *ssa.Function, stores []ssa.CallInstruction, locks []c0
 		return
 	}
 	gid := c02ObjID(g)
-	_, _, slice := c02CidArgs(store)
+	if hfn == fn {
+		hgid = gid
+	}
+	_, _, slice := c02CidArgs(hstore)
 	blocksF, g2 := an.FieldOf(c01LoadAddr(slice))
+	sameTable := c02ObjID(g2) == hgid
+	if hfn != fn {
+		sameTable = sameTable && c02ObjID(tableArg) == gid
+	}
 	okShape := l.mode == an.LWrite && l.ok && l.after(store) &&
-		blocksF != nil && c02ObjID(g2) == gid && blocksF != keysF
+		blocksF != nil && sameTable && blocksF != keysF
 	c.Check(okShape, "O1", "R-GUARD", name, "store.PutMany under all key locks", store.Pos(),
 		"every key of the batch is write-locked (loop without early exit) before the store call on the paired block list",
 		"the batched store call is not preceded by a complete write-lock loop over the keys paired with the blocks written: some block of the batch is written without its per-key lock")
@@ -1118,17 +1216,17 @@ func (t *c02tq) batch(fn *ssa.Function, stores []ssa.CallInstruction, locks []c0
 		"the keys locked for the batch are not all released by a deferred loop over the same list in the same mode ("+why+")")
 	// cache writes
 	var set []ssa.Instruction
-	for _, call := range an.AllCalls(fn) {
+	for _, call := range an.AllCalls(hfn) {
 		kind := t.writers[call.Common().StaticCallee()]
 		if kind == "" {
 			continue
 		}
 		nWrite++
-		wl := an.RangeLoopOfElem(fn, an.Args(call)[0])
+		wl := an.RangeLoopOfElem(hfn, an.Args(call)[0])
 		okW := false
 		if wl != nil {
 			kf, wg := an.FieldOf(c01LoadAddr(wl.Slice))
-			okW = kf == keysF && c02ObjID(wg) == gid && wl.After(store) == false && an.Dominates(store, call)
+			okW = kf == keysF && c02ObjID(wg) == hgid && wl.After(hstore) == false && an.Dominates(hstore, call)
 			if okW && wl.EveryIteration(call) && len(wl.ExitEdges()) == 0 {
 				set = append(set, wl.Header.Instrs[0])
 			}
@@ -1136,7 +1234,7 @@ func (t *c02tq) batch(fn *ssa.Function, stores []ssa.CallInstruction, locks []c0
 		c.Check(okW, "O1", "R-GUARD", name, "cache."+kind+" under key lock", call.Pos(), "cache entries written for the locked keys only, before the deferred unlock",
 			"a cache entry is written in the batched put for a key that is not one of the locked keys")
 		if kind == "size" && wl != nil {
-			okE := an.GuardedBy(fn, store, call, an.NilEdges(fn, an.ErrResult(store), true))
+			okE := an.GuardedBy(hfn, hstore, call, an.NilEdges(hfn, an.ErrResult(hstore), true))
 			c.Check(okE, "O2", "R-DOM", name, "cache.size<=evidence(PutMany)", call.Pos(), "size entries only after the batch write succeeded",
 				"'present' cache entries are written although the batched store write failed: missing blocks are then reported present")
 			// value: len(G.blocks[i].RawData()) with the same index
@@ -1146,7 +1244,7 @@ func (t *c02tq) batch(fn *ssa.Function, stores []ssa.CallInstruction, locks []c0
 					if u, ok := an.Recv(rd).(*ssa.UnOp); ok && u.Op == token.MUL {
 						if ia, ok := u.X.(*ssa.IndexAddr); ok && ia.Index == wl.Idx {
 							bf, bg := an.FieldOf(c01LoadAddr(ia.X))
-							okV = bf == blocksF && c02ObjID(bg) == gid
+							okV = bf == blocksF && c02ObjID(bg) == hgid
 						}
 					}
 				}
@@ -1155,21 +1253,21 @@ func (t *c02tq) batch(fn *ssa.Function, stores []ssa.CallInstruction, locks []c0
 				"the size cached for a key of the batch is not the size of the block paired with that key")
 		}
 	}
-	ok, _ := an.MustFollow(fn, store, set)
+	ok, _ := an.MustFollow(hfn, hstore, set)
 	if !ok {
 		// an invalidate loop or explicit calls on the failing path also satisfy the obligation
 		var all []ssa.Instruction
 		all = append(all, set...)
-		for _, call := range an.AllCalls(fn) {
+		for _, call := range an.AllCalls(hfn) {
 			if t.writers[call.Common().StaticCallee()] != "" {
-				if wl := an.RangeLoopOfElem(fn, an.Args(call)[0]); wl != nil && wl.EveryIteration(call) && len(wl.ExitEdges()) == 0 {
+				if wl := an.RangeLoopOfElem(hfn, an.Args(call)[0]); wl != nil && wl.EveryIteration(call) && len(wl.ExitEdges()) == 0 {
 					all = append(all, wl.Header.Instrs[0])
 				}
 			}
 		}
-		ok, _ = an.MustFollow(fn, store, all)
+		ok, _ = an.MustFollow(hfn, hstore, all)
 	}
-	c.Check(ok, "O2", "R-POST", name, "mutator=>cache-updated-or-invalidated", store.Pos(),
+	c.Check(ok, "O2", "R-POST", name, "mutator=>cache-updated-or-invalidated", hstore.Pos(),
 		"after the batched store call every path rewrites or invalidates the cache entries of all keys",
 		"after PutMany on the wrapped store some path (the error path) returns without rewriting or invalidating the cache entries of the batch: a partially written batch leaves 'not present' entries for blocks that are now stored")
 	return
@@ -1393,6 +1491,140 @@ func c02Adder(H *ssa.Function, isLive func(ssa.Value) bool) (idx int, isBlock, o
 	return 0, false, false
 }
 
+// c02FuncArgs: the function-typed arguments of a call.
+func c02FuncArgs(call ssa.CallInstruction) []ssa.Value {
+	var out []ssa.Value
+	for _, a := range an.Args(call) {
+		if _, ok := a.Type().Underlying().(*types.Signature); ok {
+			out = append(out, a)
+		}
+	}
+	return out
+}
+
+// c02CallbackErrorSource: the store call of fn is handed a function through
+// which an error produced by user code (a function-typed parameter of fn) can
+// be returned to the store, and hence come back as the store call's error.
+// Returns "" when that is impossible (no function argument, or a local closure
+// whose results never derive from calling a user function).
+func c02CallbackErrorSource(fn *ssa.Function, store ssa.CallInstruction) string {
+	isUserFunc := func(v ssa.Value) bool {
+		for _, r := range an.Roots(v, nil) {
+			if prm, ok := r.(*ssa.Parameter); ok {
+				if _, isSig := prm.Type().Underlying().(*types.Signature); isSig && prm.Parent() == fn {
+					return true
+				}
+			}
+		}
+		return false
+	}
+	for _, a := range c02FuncArgs(store) {
+		if isUserFunc(a) {
+			return "the caller's callback is passed to the store as it is"
+		}
+		mc, ok := a.(*ssa.MakeClosure)
+		if !ok {
+			return "a function value of unknown origin is passed to the store"
+		}
+		cl := mc.Fn.(*ssa.Function)
+		for _, r := range an.Returns(cl) {
+			for i, res := range r.Results {
+				if !an.IsErrorType(res.Type()) {
+					continue
+				}
+				for _, root := range an.Roots(an.RetVal(r, i), nil) {
+					var call *ssa.Call
+					switch x := root.(type) {
+					case *ssa.Call:
+						call = x
+					case *ssa.Extract:
+						call, _ = x.Tuple.(*ssa.Call)
+					}
+					if call != nil && call.Call.StaticCallee() == nil && !call.Call.IsInvoke() && isUserFunc(call.Call.Value) {
+						return "the function handed to the store returns the result of the caller's callback"
+					}
+				}
+			}
+		}
+	}
+	return ""
+}
+
+// c02RootsThroughLocalFields: an.Roots, additionally looking through fields of
+// local (possibly captured) struct variables: a load of `v.f` is replaced by
+// the values stored to `v.f` in fn and its closures.
+func c02RootsThroughLocalFields(fn *ssa.Function, v ssa.Value) []ssa.Value {
+	var out []ssa.Value
+	seen := map[ssa.Value]bool{}
+	var walk func(x ssa.Value, d int)
+	walk = func(x ssa.Value, d int) {
+		for _, r := range an.Roots(x, nil) {
+			if seen[r] || d > 6 {
+				continue
+			}
+			seen[r] = true
+			u, ok := r.(*ssa.UnOp)
+			if !ok || u.Op != token.MUL {
+				out = append(out, r)
+				continue
+			}
+			fa, ok := u.X.(*ssa.FieldAddr)
+			var cell *ssa.Alloc
+			if ok {
+				cell = an.CellOf(fa.X)
+			}
+			if cell == nil {
+				out = append(out, r)
+				continue
+			}
+			n := 0
+			for _, g := range an.WithClosures(fn) {
+				an.Instrs(g, func(in ssa.Instruction) {
+					st, ok := in.(*ssa.Store)
+					if !ok {
+						return
+					}
+					if fa2, ok := st.Addr.(*ssa.FieldAddr); ok && fa2.Field == fa.Field && an.CellOf(fa2.X) == cell {
+						n++
+						walk(st.Val, d+1)
+					}
+				})
+			}
+			if n == 0 {
+				out = append(out, r)
+			}
+		}
+	}
+	walk(v, 0)
+	return out
+}
+
+// c02IsHolderCount: field f (addressed by addr) is the reference counter of the
+// per-key lock object: the int field of the struct that embeds the RWMutex.
+func c02IsHolderCount(f *types.Var, addr ssa.Value) bool {
+	if f == nil || !types.Identical(f.Type().Underlying(), types.Typ[types.Int]) {
+		return false
+	}
+	fa, ok := addr.(*ssa.FieldAddr)
+	if !ok {
+		return false
+	}
+	t := fa.X.Type()
+	if pt, ok := t.Underlying().(*types.Pointer); ok {
+		t = pt.Elem()
+	}
+	st, ok := t.Underlying().(*types.Struct)
+	if !ok {
+		return false
+	}
+	for i := 0; i < st.NumFields(); i++ {
+		if an.TypeIs(st.Field(i).Type(), "sync", "RWMutex") {
+			return true
+		}
+	}
+	return false
+}
+
 // c02IsEnumHelper: f is the package helper func(ctx, Blockstore) (<-chan cid.Cid,
 // func() error, error) that obtains an enumeration with error from a store.
 func c02IsEnumHelper(f *ssa.Function) bool {
@@ -1461,8 +1693,15 @@ func c02ObjID(v ssa.Value) string {
 func c02Bloom(c *an.Ctx) {
 	p := c.P
 	const pkg = "blockstore"
-	fActive, fBloom, fStore, fViewer := p.Field(pkg, "bloomcache", "active"), p.Field(pkg, "bloomcache", "bloom"), p.Field(pkg, "bloomcache", "blockstore"), p.Field(pkg, "bloomcache", "viewer")
-	meths := p.Methods(pkg, "bloomcache")
+	tBloom := c01TBloomcache(p)
+	if !c.Need(tBloom != nil, "the Blockstore implementation of package blockstore that holds an atomic.Pointer[bloom.Bloom]") {
+		return
+	}
+	fActive := c01One(c01FieldBy(tBloom, func(x types.Type) bool { return an.TypeIs(x, "sync/atomic", "Bool") }))
+	fBloom := c01One(c01FieldBy(tBloom, func(x types.Type) bool { return an.TypeIs(x, "sync/atomic", "Pointer") }))
+	fStore, fViewer := c01One(c01FieldBy(tBloom, c01IsBlockstoreT)), c01One(c01FieldBy(tBloom, c01IsViewerT))
+	fBuildMu := c01One(c01FieldBy(tBloom, func(x types.Type) bool { return an.TypeIs(x, "sync", "Mutex") }))
+	meths := c01MethodsOf(p, pkg, tBloom)
 	if !c.Need(fActive != nil && fBloom != nil && fStore != nil && fViewer != nil && len(meths) > 0, "blockstore.bloomcache fields active, bloom, blockstore, viewer and methods") {
 		return
 	}
@@ -1577,7 +1816,7 @@ func c02Bloom(c *an.Ctx) {
 	heldBuildMu = func(fn *ssa.Function, in ssa.Instruction, depth int) bool {
 		lf := an.Locks(fn, an.SyncModel, nil, true)
 		for pth, m := range lf.Before[in] {
-			if m == an.LWrite && strings.HasSuffix(pth, ".buildMu") {
+			if m == an.LWrite && fBuildMu != nil && strings.HasSuffix(pth, "."+fBuildMu.Name()) {
 				return true
 			}
 		}
@@ -2021,23 +2260,35 @@ func c02Bloom(c *an.Ctx) {
 
 func c02Enum(c *an.Ctx) {
 	p := c.P
-	fn := p.Func("blockstore", "blockstore", "AllKeysChanWithErr")
+	var fn *ssa.Function
+	if tBS := c01TBlockstore(p); tBS != nil {
+		fn = p.Func("blockstore", tBS.Obj().Name(), "AllKeysChanWithErr")
+	}
 	if !c.Need(fn != nil, "blockstore.blockstore.AllKeysChanWithErr") {
 		return
 	}
 	name := an.FuncName(fn)
-	// the error cell: what the returned func() error loads
+	// the error function: a closure, or a bound method value (`enum.wait`)
+	pmap := map[*ssa.Parameter]ssa.Value{}
 	var errFn *ssa.Function
 	for _, r := range an.Returns(fn) {
 		if len(r.Results) == 3 {
 			if mc, ok := r.Results[1].(*ssa.MakeClosure); ok {
 				errFn = mc.Fn.(*ssa.Function)
+				if errFn.Synthetic != "" && len(mc.Bindings) == 1 {
+					// bound method wrapper: the method itself, its receiver bound here
+					for _, call := range an.AllCalls(errFn) {
+						if m := call.Common().StaticCallee(); m != nil && m.Blocks != nil && len(m.Params) > 0 {
+							errFn = m
+							pmap[m.Params[0]] = mc.Bindings[0]
+						}
+					}
+				}
 			}
 		}
 	}
 	// the goroutine: a closure, or a package function/method started with `go`
 	var gor *ssa.Function
-	goArg := map[*ssa.Parameter]ssa.Value{}
 	for _, call := range an.AllCalls(fn) {
 		if g, ok := call.(*ssa.Go); ok {
 			if mc, ok := g.Call.Value.(*ssa.MakeClosure); ok {
@@ -2046,98 +2297,121 @@ func c02Enum(c *an.Ctx) {
 				gor = f
 				for i, q := range f.Params {
 					if i < len(g.Call.Args) {
-						goArg[q] = g.Call.Args[i]
+						pmap[q] = g.Call.Args[i]
 					}
 				}
 			}
 		}
 	}
-	// outer: identity, in terms of fn's cells/values, of a value or address used
-	// inside the goroutine (through captured variables and parameters)
-	var outer func(v ssa.Value, d int) string
-	outer = func(v ssa.Value, d int) string {
-		if v == nil || d > 6 {
+	if !c.Need(errFn != nil && gor != nil, "error function and enumeration goroutine of AllKeysChanWithErr") {
+		return
+	}
+	// locOf: identity of a memory location (a captured variable of fn, or a
+	// field of an object allocated in fn) from inside the goroutine / the
+	// error function, through captured variables, parameters and receivers
+	var locOf func(addr ssa.Value, d int) string
+	var objOf func(v ssa.Value, d int) string
+	objOf = func(v ssa.Value, d int) string {
+		if v == nil || d > 8 {
 			return ""
 		}
-		if al, ok := v.(*ssa.Alloc); ok && al.Parent() == fn {
-			return fmt.Sprintf("cell@%d", al.Pos())
-		}
-		if prm, ok := v.(*ssa.Parameter); ok {
-			return outer(goArg[prm], d+1)
-		}
-		if fv, ok := v.(*ssa.FreeVar); ok {
-			if cell := an.CellOf(fv); cell != nil {
-				return outer(cell, d+1)
-			}
-		}
+		// a pointer held in a (possibly twice captured) variable: its single assignment
 		if u, ok := v.(*ssa.UnOp); ok && u.Op == token.MUL {
 			if cell := an.CellOf(u.X); cell != nil {
-				if cell.Parent() == fn {
-					return fmt.Sprintf("cell@%d", cell.Pos())
-				}
-				// a local spill of a parameter (captured by a nested closure)
 				var stored ssa.Value
-				nst := 0
+				n := 0
 				for _, ref := range *cell.Referrers() {
 					if st, ok := ref.(*ssa.Store); ok && st.Addr == ssa.Value(cell) {
 						stored = st.Val
-						nst++
+						n++
 					}
 				}
-				if nst == 1 {
-					return outer(stored, d+1)
+				if n == 1 {
+					return objOf(stored, d+1)
 				}
 				return ""
 			}
-			if prm, ok := u.X.(*ssa.Parameter); ok {
-				return "*" + outer(prm, d+1)
-			}
 		}
-		if al, ok := v.(*ssa.Alloc); ok {
-			// gor-local cell holding a parameter
-			var stored ssa.Value
-			nst := 0
-			for _, ref := range *al.Referrers() {
-				if st, ok := ref.(*ssa.Store); ok && st.Addr == ssa.Value(al) {
-					stored = st.Val
-					nst++
-				}
+		rs := an.Roots(v, nil)
+		if len(rs) != 1 {
+			return ""
+		}
+		switch r := rs[0].(type) {
+		case *ssa.Alloc:
+			return fmt.Sprintf("obj@%d", r.Pos())
+		case *ssa.Parameter:
+			return objOf(pmap[r], d+1)
+		}
+		return ""
+	}
+	locOf = func(addr ssa.Value, d int) string {
+		if addr == nil || d > 8 {
+			return ""
+		}
+		switch a := addr.(type) {
+		case *ssa.Alloc:
+			return fmt.Sprintf("cell@%d", a.Pos())
+		case *ssa.FreeVar:
+			if cell := an.CellOf(a); cell != nil {
+				return fmt.Sprintf("cell@%d", cell.Pos())
 			}
-			if nst == 1 {
-				return outer(stored, d+1)
+		case *ssa.Parameter:
+			return locOf(pmap[a], d+1)
+		case *ssa.FieldAddr:
+			if o := objOf(a.X, d+1); o != "" {
+				return fmt.Sprintf("%s.%d", o, a.Field)
+			}
+		case *ssa.UnOp:
+			// a pointer held in a variable (`errp` spilled, captured ...)
+			if a.Op == token.MUL {
+				rs := an.Roots(a, nil)
+				if len(rs) == 1 && rs[0] != ssa.Value(a) {
+					return locOf(rs[0], d+1)
+				}
 			}
 		}
 		return ""
 	}
-	cellID := func(a *ssa.Alloc) string {
-		if a == nil {
-			return "<none>"
+	chanLoc := func(v ssa.Value) string {
+		for i := 0; i < 4 && v != nil; i++ {
+			switch x := v.(type) {
+			case *ssa.UnOp:
+				if x.Op == token.MUL {
+					if l := locOf(x.X, 0); l != "" {
+						return l
+					}
+				}
+				return ""
+			case *ssa.Parameter:
+				v = pmap[x]
+			case *ssa.ChangeType:
+				v = x.X
+			default:
+				return ""
+			}
 		}
-		return fmt.Sprintf("cell@%d", a.Pos())
+		return ""
 	}
-	if !c.Need(errFn != nil && gor != nil, "error closure and enumeration goroutine of AllKeysChanWithErr") {
-		return
-	}
-	var errCell, doneCell *ssa.Alloc
+	errLoc, doneLoc := "", ""
 	var errLoad, doneRecv ssa.Instruction
 	for _, r := range an.Returns(errFn) {
-		if u, ok := r.Results[0].(*ssa.UnOp); ok && u.Op == token.MUL {
-			errCell = an.CellOf(u.X)
-			errLoad = u
+		if len(r.Results) == 1 {
+			if u, ok := r.Results[0].(*ssa.UnOp); ok && u.Op == token.MUL {
+				errLoc = locOf(u.X, 0)
+				errLoad = u
+			}
 		}
 	}
 	an.Instrs(errFn, func(in ssa.Instruction) {
 		if u, ok := in.(*ssa.UnOp); ok && u.Op == token.ARROW {
-			if l, ok := u.X.(*ssa.UnOp); ok {
-				doneCell = an.CellOf(l.X)
-				doneRecv = u
-			}
+			doneLoc = chanLoc(u.X)
+			doneRecv = u
 		}
 	})
-	if !c.Need(errCell != nil, "error cell read by the returned error function") {
+	if !c.Need(errLoc != "", "error location read by the returned error function") {
 		return
 	}
-	c.Check(doneCell != nil && doneRecv != nil && errLoad != nil && an.Dominates(doneRecv, errLoad), "O6", "R-DOM", an.FuncName(errFn), "wait-done<read-iterErr", errFn.Pos(),
+	c.Check(doneLoc != "" && doneRecv != nil && errLoad != nil && an.Dominates(doneRecv, errLoad), "O6", "R-DOM", an.FuncName(errFn), "wait-done<read-iterErr", errFn.Pos(),
 		"the error function waits for the goroutine before reading the error", "the error function reads the iteration error without first waiting for the enumeration goroutine to finish: a failed enumeration can be read as complete")
 	// exits of the goroutine
 	var next *ssa.Call
@@ -2151,7 +2425,7 @@ func c02Enum(c *an.Ctx) {
 	}
 	var errStores []ssa.Instruction
 	an.Instrs(gor, func(in ssa.Instruction) {
-		if st, ok := in.(*ssa.Store); ok && !an.IsNilConst(st.Val) && (an.CellOf(st.Addr) == errCell || outer(st.Addr, 0) == cellID(errCell)) {
+		if st, ok := in.(*ssa.Store); ok && !an.IsNilConst(st.Val) && locOf(st.Addr, 0) == errLoc {
 			errStores = append(errStores, st)
 		}
 	})
@@ -2200,7 +2474,7 @@ func c02Enum(c *an.Ctx) {
 		"a query result that carries an iteration error is not recorded as the enumeration's error before the goroutine goes on or returns (or the entry's Error is never tested): keys are silently missing from the enumeration and the Bloom filter is activated without them")
 	// deferred closes: output before done
 	okOrder := false
-	doneID := cellID(doneCell)
+	doneID := doneLoc
 	for _, g := range gor.AnonFuncs {
 		var closes []*ssa.Call
 		var ids []string
@@ -2208,7 +2482,7 @@ func c02Enum(c *an.Ctx) {
 			if cv, ok := call.(*ssa.Call); ok {
 				if cc, ok := an.IsBuiltinCall(cv, "close"); ok {
 					closes = append(closes, cc)
-					id := outer(cc.Call.Args[0], 0)
+					id := chanLoc(cc.Call.Args[0])
 					if id == "" {
 						id = "other:" + an.PathOf(cc.Call.Args[0])
 					}
